@@ -2,6 +2,7 @@
 from .families import run_family
 from ..rules import structure as st
 from ..rules import callsites as cs
+from ..rules import guards, origin
 
 
 def extras():
@@ -14,4 +15,6 @@ def run(rep, fb, tier):
 
 EXTRAS = [
     lambda rep, fb, tier: st.rule_axis(rep, fb, methods=("rpad", "rpad_and_clip"), floor=70),
+    lambda rep, fb, tier: guards.rule_const_subscript(rep, fb),
+    lambda rep, fb, tier: origin.rule_origin(rep, fb),
 ]
